@@ -238,6 +238,7 @@ impl Publisher for PublisherService {
 
         topic.delete().await.map_err(|e| match e {
             DeleteError::Closed => conflict(),
+            DeleteError::DoesNotExist => topic_not_found(&topic_name),
         })?;
 
         log::debug!("{}: deleting topic {}", &topic_name, start);
